@@ -14,7 +14,9 @@ RULE = ("Generated histories over a pool of meshes, each shadowed by a model (co
         "combinations), boundary extraction (surface and volume), subdivision results. Operations: translate, rotate (matrix / "
         "Euler / Rotation, with origin), scale, scale_xyz, normalize, fit_into_unit_cube, translate_to_origin, flatten, "
         "inverse round trips, in-place and rebinding coordinate edits, vertex append, attribute writes, connectivity queries. "
-        "After EVERY step every mesh of the pool must equal its model (bit-for-bit when it was not the target). non-trivial = "
+        "After EVERY step every mesh of the pool must equal its model (bit-for-bit when it was not the target); every produced mesh's "
+        "corner / cell-face records must list its own elements; element lists handed out by a copy are edited in place and the "
+        "source's lists re-read. non-trivial = "
         "the history applies a transform or edit to a mesh derived from (or source of) another mesh still in the pool; "
         "distinct = distinct histories.")
 ASSUMPTIONS = ["normalize is only applied to meshes with non-zero extent", "rotation parameters are finite; scale factors in [0.1, 10]",
